@@ -173,6 +173,29 @@ func c10Scenarios() []c10Scenario {
 		b.tagged(n, true, "OK [CAPABILITY "+c10Caps+"] authenticated")
 		b.phase('U', n, func(x *c10Ctx) error { return x.c.Authenticate(sasl.NewPlainClient("", "user", "pass")) })
 	})
+	// the server completes AUTHENTICATE right after its challenge, without waiting for the SASL
+	// response: the client may register the continuation request for its answer after the command
+	// was completed; only the end of the connection releases that request
+	add("auth-eager", true, one, func(b *c10B, mode string) {
+		c10Greeting(b)
+		n := b.cmd("u")
+		b.R(1)
+		b.cont(n, "+ ")
+		b.tagged(n, true, "OK [CAPABILITY "+c10Caps+"] authenticated")
+		b.R(1) // the SASL response is on the wire before the connection is cut any later
+		b.line(0, "* OK still here")
+		b.phase('U', n, func(x *c10Ctx) error { return x.c.Authenticate(sasl.NewPlainClient("", "user", "pass")) })
+	})
+	l[len(l)-1].noHealthy = true
+	// a command issued after the connection died (the first one's wait has reported the failure)
+	add("sequence2", true, one, func(b *c10B, mode string) {
+		c10Greeting(b)
+		c10Simple(b, func(c *imapclient.Client) func() error { return c.Noop().Wait }, true, "OK NOOP completed")
+		c10Simple(b, func(c *imapclient.Client) func() error {
+			cmd := c.Status("INBOX", &imap.StatusOptions{NumMessages: true})
+			return func() error { _, err := cmd.Wait(); return err }
+		}, true, "OK STATUS completed", "* STATUS INBOX (MESSAGES 3)")
+	})
 	add("auth-plain-no", false, one, func(b *c10B, mode string) {
 		c10Greeting(b)
 		n := b.cmd("u")
